@@ -69,6 +69,8 @@ class Ctx:
         self.extra = {}
         self.t0 = time.time()
         self._traces = {}
+        from . import evalr
+        del evalr.ALL_TRACES[:]
         self._sites = set()
         self.notes = []
         self.anchor_errors = []
